@@ -37,11 +37,15 @@ event list (every completion order, every accept/reject outcome, every outcome o
 choices), every restart point (between events, or at the instant `treat_output` writes
 `restart.toml`), with and without jobs in flight, any number of restarts.
 
-**Scope of the restart theorems** (stated in `ChainReach`, not hidden): the restarted sampler has
-the same number of ensembles, and its initiation loop re-issues ALL recorded jobs (as many `start`
-events as records, all succeeding; needs `workers ≥ #records` and `tsteps − cstep ≥ #records`).
-With fewer workers / remaining steps the code drops the un-re-issued records (those jobs never
-complete, their results are never consumed) and their ordinals may later go to fresh jobs.
+**Scope.**  Since /repo 17a0342 the restart file records the spawn counter whenever it is not
+`cstep + len(locked)`, so a restart always continues the counter.  The stream theorems
+(`streams_pairwise_distinct_across_restarts`, `fresh_jobs_continue_ordinals`) therefore hold on
+`ChainAny`: arbitrary histories and arbitrary restarts — more or fewer workers, fewer remaining steps
+than recorded jobs (records dropped), another number of ensembles.  What needs C03's slot invariant is
+the ALIGNMENT of records and ordinals — that a re-issued job is the recorded job under that job's
+ordinal (`reissue_same_streams`, `inflight_record_exact`); these are stated on `ChainReach`, whose
+restarts keep the number of ensembles and re-issue ALL recorded jobs (the initiation loop with
+`workers ≥ #records` and `tsteps − cstep ≥ #records`).
 -/
 namespace Infretis.C07
 open Infretis.Repex
@@ -81,14 +85,14 @@ theorem WellFormedFresh.fresh {seed : Nat} {y0 : Sys} (h : WellFormedFresh seed 
 /-- a well-formed fresh start begins a chain -/
 theorem WellFormedFresh.chain {seed : Nat} {y0 : Sys} (h : WellFormedFresh seed y0) :
     ChainReach seed y0 [] := by
-  obtain ⟨h1, h2, h3, _, _, h6, h7, _⟩ := h.fresh.fields
+  obtain ⟨h1, h2, h3, _, _, h6, h7, h8⟩ := h.fresh.fields
   obtain ⟨n, workers, tsteps, trajNum, occ, ensEng, paths, hn, hlen, hnd, hlt, hl, hj⟩ := h
   have hy : y0 = { s := y0.s, jobs := [] } := by
     cases y0; simp only at hj; subst hj; rfl
   have hi : Init y0 := by
     rw [hy]
     exact init_of_loadPaths n workers tsteps 0 trajNum seed occ ensEng false paths y0.s hn hlen hnd hlt hl
-  exact ChainReach.fresh hi h1 h2 h3 (loadPaths_quiet hl).1.cstep h6 h7
+  exact ChainReach.fresh hi h1 h2 h3 (loadPaths_quiet hl).1.cstep h6 h7 h8
 
 /-! ## A concrete system for the non-vacuity examples
 
@@ -322,8 +326,9 @@ theorem reissue_same_streams_at_write (seed : Nat) (y : Sys) (log : List Entry)
   rw [m3] at this
   exact this
 
-/-- **`streams_pairwise_distinct_across_restarts`** (FULL, any number of restarts, with and without
-    jobs in flight, every number of workers).  Over the log of a whole chain:
+/-- **`streams_pairwise_distinct_across_restarts`** (FULL: any number of restarts, with and without
+    jobs in flight, every number of workers before and after each restart, all / some / none of the
+    recorded jobs re-issued, any event interleaving — `ChainAny`).  Over the log of a whole chain:
     (a) every entry's job carries `(seed, [ord, j])` / `(seed, [ord, j, 0])` for its recorded ordinal;
     (b) the `k`-th DISTINCT (fresh) job of the chain has ordinal `k`, and the spawn counter equals
         the number of distinct jobs issued — a job's streams are a function of the seed and of the
@@ -335,7 +340,7 @@ theorem reissue_same_streams_at_write (seed : Nat) (y : Sys) (log : List Entry)
         by that entry itself (no ordinal is invented);
     (f) no stream is the scheduler's own. -/
 theorem streams_pairwise_distinct_across_restarts (seed : Nat) (y : Sys) (log : List Entry)
-    (h : ChainReach seed y log) :
+    (h : ChainAny seed y log) :
     (∀ e ∈ log, ∀ (j : Nat) (p : Picked), e.job.picked[j]? = some p →
         p.rgen = { entropy := seed, key := [e.ord, j] } ∧
         p.rgenEng = { entropy := seed, key := [e.ord, j, 0] }) ∧
@@ -369,6 +374,60 @@ theorem streams_pairwise_distinct_across_restarts (seed : Nat) (y : Sys) (log : 
   · intro x hx
     have hne := hi.tagged.key_ne_nil hx
     exact ⟨hne, fun s hxs => hne (by rw [hxs]; rfl)⟩
+
+/-- a fresh start (any `FreshStart`: no slot invariant needed) begins an unrestricted chain -/
+theorem freshStart_chainAny {seed : Nat} {y0 : Sys} (h : FreshStart seed y0) : ChainAny seed y0 [] := by
+  obtain ⟨h1, h2, h3, _, _, _, h7, h8⟩ := h.fields
+  exact ChainAny.fresh h1 h2 h3 h7 h8
+
+/-- the same over the restricted chains (every restart re-issues all recorded jobs), where in addition
+    `reissue_same_streams` identifies every re-issue entry with the recorded job -/
+theorem streams_pairwise_distinct_across_restarts_reissue_all (seed : Nat) (y : Sys) (log : List Entry)
+    (h : ChainReach seed y log) :
+    (∀ e ∈ log, ∀ (j : Nat) (p : Picked), e.job.picked[j]? = some p →
+        p.rgen = { entropy := seed, key := [e.ord, j] } ∧
+        p.rgenEng = { entropy := seed, key := [e.ord, j, 0] }) ∧
+    (allStreams ((log.filter (·.fresh)).map (·.job))).Nodup ∧
+    (∀ e ∈ log, ∃ e0 ∈ log, e0.fresh = true ∧ e0.ord = e.ord) :=
+  let r := streams_pairwise_distinct_across_restarts seed y log h.toAny
+  ⟨r.1, r.2.2.1, r.2.2.2.2.1⟩
+
+/-- **`fresh_jobs_continue_ordinals`.**  After any chain in which `J` distinct jobs were issued, the
+    `m`-th FRESH job of any continuation (whatever is re-issued in between) has ordinal `J + m` and
+    the streams `(seed, [J + m, j])` / `(seed, [J + m, j, 0])`; re-issued jobs carry ordinals `< J`. -/
+theorem fresh_jobs_continue_ordinals (seed : Nat) (y : Sys) (log : List Entry)
+    (h : ChainAny seed y log) (evs : List Ev) :
+    (∀ (m : Nat) (e : Entry), ((ghost y evs).filter (·.fresh))[m]? = some e →
+      e.ord = (freshOrds log).length + m ∧
+      ∀ (j : Nat) (p : Picked), e.job.picked[j]? = some p →
+        p.rgen = { entropy := seed, key := [(freshOrds log).length + m, j] } ∧
+        p.rgenEng = { entropy := seed, key := [(freshOrds log).length + m, j, 0] }) ∧
+    (∀ e ∈ ghost y evs, e.fresh = false → e.ord < (freshOrds log).length) := by
+  have hi := h.inv
+  have hfl : (freshOrds log).length = y.s.spawned := by rw [hi.fresh, List.length_range]
+  obtain ⟨g1, g2, g3⟩ := ghost_spec evs y
+  constructor
+  · intro m e hm
+    have hmem := List.mem_of_mem_filter (List.mem_of_getElem? hm)
+    have hord : e.ord = y.s.spawned + m := by
+      unfold freshOrds at g2
+      have := congrArg (fun l => l[m]?) g2
+      simp only [List.getElem?_map, hm, Option.map_some, List.length_map] at this
+      rw [List.getElem?_range' (getElem?_lt_of_some _ _ _ hm)] at this
+      simpa using this
+    rw [hfl]
+    refine ⟨hord, fun j p hp => ?_⟩
+    have hst := g1 e hmem j p hp
+    rw [hi.hentropy, hord] at hst
+    exact hst
+  · intro e he hf
+    have hm : some e.ord ∈ (reissueOrds (ghost y evs)).map some := by
+      apply List.mem_map.mpr
+      refine ⟨e.ord, ?_, rfl⟩
+      unfold reissueOrds
+      exact List.mem_map.mpr ⟨e, List.mem_filter.mpr ⟨he, by simp [hf]⟩, rfl⟩
+    rw [hfl]
+    exact hi.below.2 e.ord (g3.subset hm)
 
 /-- **`restart_continues_ordinals`.**  After any chain (any restarts, with or without jobs in flight)
     in which `J` distinct jobs were issued, the `m`-th job issued in any continuation is a fresh job
@@ -527,7 +586,7 @@ then made on a stream `(seed, [k, j, 0])` of that job. -/
     engine types per ensemble; any instance indices) and ANY prior contents of the process's engine
     table: after the set-up every engine object the job uses holds the engine stream
     `(seed, [ord, j, 0])` of an entry `j` of THAT job which lists the object. -/
-theorem engines_hold_job_streams (seed : Nat) (y : Sys) (log : List Entry) (h : ChainReach seed y log)
+theorem engines_hold_job_streams (seed : Nat) (y : Sys) (log : List Entry) (h : ChainAny seed y log)
     (e : Entry) (he : e ∈ log) (tbl : EngTbl) (obj : EngObj)
     (hobj : ∃ p ∈ e.job.picked, obj ∈ p.engIdx) :
     ∃ (j : Nat) (q : Picked), e.job.picked[j]? = some q ∧ obj ∈ q.engIdx ∧
@@ -639,6 +698,52 @@ theorem streams_pairwise_distinct_across_restarts_asIs_counterexample :
       | .ok (s, ps, _) => some (showPicked ps, s.spawned, s.cstep + s.locked.length)
       | .error _ => none) = some ([(-1, ⟨7, [0, 0]⟩, ⟨7, [0, 0, 0]⟩)], 2, 2) := by
   refine ⟨by decide +kernel, by decide +kernel, by decide +kernel, by decide +kernel, by decide +kernel⟩
+
+/-! ### before 17a0342: a dropped record made the next restart re-use ordinals
+
+Segment 1 (fresh, 2 workers): A (`[0-]`, ordinal 0) and B (`[1+]`, ordinal 1) in flight; stop.
+Segment 2 is restarted with ONE worker: A is re-issued (ordinal 0), the record of B is dropped, the
+counter is 2; A completes, a new job C on `[1+]` gets ordinal 2; C completes; the restart file written
+at that instant has `cstep = 2`, nothing in flight — but three distinct jobs (0, 1, 2) were issued. -/
+
+def drS1 : St := okOr exS0 (restore (persist cx1.s) cx1.s.n 1 10 [[-1]] [[0], [0], [0]] cxW)
+def drEvs : List Ev := [ .start { t := 0, e := 0 }, .initDone, .step 0 .rej [] { t := 2, e := 2 } ]
+def drY : Sys := okOr exSys (run { s := drS1, jobs := [] } drEvs)
+def drMid : St := okOr exS0 (midState drY 0 .rej [])
+def drS2 : St := okOr exS0 (restore (persist drMid) drMid.n 1 10 [[-1]] [[0], [0], [0]] cxW)
+def drS2AsIs : St := okOr exS0 (restoreAsIs17 (persist drMid) drMid.n 1 10 [[-1]] [[0], [0], [0]] cxW)
+
+/-- the chain with the dropped record is a `ChainAny` (non-vacuity of the unrestricted theorems) -/
+theorem dr_chain : ChainAny 7 { s := drS2, jobs := [] }
+    (([] ++ ghost exSys cxEvs) ++ ghost { s := drS1, jobs := [] } drEvs) :=
+  ChainAny.restartMid (k := 0) (status := .rej) (newW := []) (s2 := drMid) (n := drMid.n) (workers := 1)
+    (tsteps := 10) (occ := [[-1]]) (ensEng := [[0], [0], [0]]) (weightOf := cxW)
+    (ChainAny.run
+      (ChainAny.restart (n := cx1.s.n) (workers := 1) (tsteps := 10) (occ := [[-1]])
+        (ensEng := [[0], [0], [0]]) (weightOf := cxW) (s' := drS1)
+        (ChainAny.run (freshStart_chainAny ex_fresh) cx_runs.1) (by decide +kernel))
+      (by decide +kernel : run { s := drS1, jobs := [] } drEvs = .ok drY))
+    (by decide +kernel) (by decide +kernel)
+
+/-- **`dropped_record_asIs_counterexample`** (the finding of the hardening pass, fixed by 17a0342).
+    On the chain above: one record (B, ordinal 1) waits un-re-issued, the log of segment 2 is
+    re-issue of A under ordinal 0 and the fresh job C under ordinal 2, the restart file is written from
+    a state with `spawned = 3`, `cstep + #locked = 2`.  The as-is restart restores the counter 2 and
+    the next job gets `(7, [2, 0])` — the streams of the COMPLETED job C; the repaired restart finds
+    `current.spawned = 3` in the file and the next job gets `(7, [3, 0])`. -/
+theorem dropped_record_asIs_counterexample :
+    drY.s.locked0 = [([2], [2])] ∧
+    showLog (ghost { s := drS1, jobs := [] } drEvs)
+      = [⟨0, false, [(-1, [0, 0], [0, 0, 0])]⟩, ⟨2, true, [(1, [2, 0], [2, 0, 0])]⟩] ∧
+    drMid.spawned = 3 ∧ drMid.cstep + drMid.locked.length = 2 ∧ (persist drMid).spawnedRec = some 3 ∧
+    drS2AsIs.spawned = 2 ∧
+    showLog (ghost { s := drS2AsIs, jobs := [] } [.start { t := 2, e := 2 }])
+      = [⟨2, true, [(1, [2, 0], [2, 0, 0])]⟩] ∧
+    drS2.spawned = 3 ∧
+    showLog (ghost { s := drS2, jobs := [] } [.start { t := 2, e := 2 }])
+      = [⟨3, true, [(1, [3, 0], [3, 0, 0])]⟩] := by
+  refine ⟨by decide +kernel, by decide +kernel, by decide +kernel, by decide +kernel, by decide +kernel,
+    by decide +kernel, by decide +kernel, by decide +kernel, by decide +kernel⟩
 
 /-- the repaired `pick_lock()` after a restart without recorded jobs (seed 1, restart at `cstep = 2`):
     ordinals continue at `cstep + #in flight = 2`, then 3, with the configured seed -/
